@@ -31,6 +31,7 @@ func init() {
 	reg(libPkg+"VerifUint32", symOf(32, false))
 	reg(libPkg+"VerifInt32", symOf(32, true))
 	reg(libPkg+"VerifUint16", symOf(16, false))
+	reg(libPkg+"VerifInt16", symOf(16, true))
 	reg(libPkg+"VerifByte", symOf(8, false))
 	reg(libPkg+"VerifBool", symOf(0, false))
 	reg(libPkg+"VerifChoose", func(fr *frame, args []Value) Value {
@@ -92,7 +93,18 @@ func init() {
 		return nil
 	})
 	reg(libPkg+"VerifAssert", func(fr *frame, args []Value) Value {
-		fr.x.Assert(args[0].(*Term), concStr(fr.x, args[1]))
+		x := fr.x
+		if x.cm.active() {
+			c := args[0].(*Term)
+			if !c.IsConst() {
+				x.unsupported("concurrency mode: symbolic assertion")
+			}
+			if c.C == 0 {
+				x.cm.fail(concStr(x, args[1]))
+			}
+			return nil
+		}
+		x.Assert(args[0].(*Term), concStr(x, args[1]))
 		return nil
 	})
 	reg(libPkg+"VerifReach", func(fr *frame, args []Value) Value {
@@ -163,15 +175,49 @@ func init() {
 	// ---- sync/atomic ------------------------------------------------------------------
 	for _, ty := range []string{"Int32", "Int64", "Uint32", "Uint64", "Uintptr", "Pointer"} {
 		ty := ty
-		reg("sync/atomic.Load"+ty, func(fr *frame, args []Value) Value { return fr.x.loadFrom(args[0]) })
-		reg("sync/atomic.Store"+ty, func(fr *frame, args []Value) Value { fr.x.storeTo(args[0], args[1]); return nil })
+		reg("sync/atomic.Load"+ty, func(fr *frame, args []Value) Value {
+			if fr.x.cm.active() {
+				p := fr.x.nonNil(args[0])
+				fr.x.cm.markShared(p)
+				return fr.x.cm.sharedRead(p, "atomic.Load")
+			}
+			return fr.x.loadFrom(args[0])
+		})
+		reg("sync/atomic.Store"+ty, func(fr *frame, args []Value) Value {
+			if fr.x.cm.active() {
+				p := fr.x.nonNil(args[0])
+				fr.x.cm.markShared(p)
+				fr.x.cm.sharedWrite(p, args[1], "atomic.Store")
+				return nil
+			}
+			fr.x.storeTo(args[0], args[1])
+			return nil
+		})
 		reg("sync/atomic.Swap"+ty, func(fr *frame, args []Value) Value {
+			if fr.x.cm.active() {
+				p := fr.x.nonNil(args[0])
+				fr.x.cm.markShared(p)
+				return fr.x.cm.sharedRMW(p, "atomic.Swap", func(Value) (Value, bool) { return args[1], true })
+			}
 			old := fr.x.loadFrom(args[0])
 			fr.x.storeTo(args[0], args[1])
 			return old
 		})
 		reg("sync/atomic.CompareAndSwap"+ty, func(fr *frame, args []Value) Value {
 			x := fr.x
+			if x.cm.active() {
+				p := x.nonNil(args[0])
+				x.cm.markShared(p)
+				swapped := false
+				x.cm.sharedRMW(p, "atomic.CAS", func(o Value) (Value, bool) {
+					if x.equal(nil, o, args[1]).IsTrue() {
+						swapped = true
+						return args[2], true
+					}
+					return nil, false
+				})
+				return x.ts.Bool(swapped)
+			}
 			cur := x.loadFrom(args[0])
 			eq := x.equal(nil, cur, args[1])
 			if x.Branch(eq) {
@@ -183,6 +229,12 @@ func init() {
 		if ty != "Pointer" {
 			reg("sync/atomic.Add"+ty, func(fr *frame, args []Value) Value {
 				x := fr.x
+				if x.cm.active() {
+					p := x.nonNil(args[0])
+					x.cm.markShared(p)
+					old := x.cm.sharedRMW(p, "atomic.Add", func(o Value) (Value, bool) { return x.ts.Bin(OpAdd, o.(*Term), args[1].(*Term)), true })
+					return x.ts.Bin(OpAdd, old.(*Term), args[1].(*Term))
+				}
 				n := x.ts.Bin(OpAdd, x.loadFrom(args[0]).(*Term), args[1].(*Term))
 				x.storeTo(args[0], n)
 				return n
@@ -656,6 +708,14 @@ func init() {
 	})
 }
 
+func (x *Exec) nonNil(v Value) Ptr {
+	p, ok := v.(Ptr)
+	if !ok || p == nil {
+		x.targetPanicStr("runtime error: invalid memory address or nil pointer dereference (atomic)")
+	}
+	return p
+}
+
 func posOf(fr *frame) string {
 	if fr.caller != nil && fr.callpos.IsValid() {
 		p := fr.x.prog.Fset.Position(fr.callpos)
@@ -697,6 +757,27 @@ func (x *Exec) lockOf(p Ptr) *lockState {
 }
 
 func (x *Exec) lock(p Ptr, write, try bool) bool {
+	if x.cm.active() {
+		// lock word as a shared cell: readers + 1000*writer
+		x.cm.markShared(x.cm.lockCell(p))
+		got := false
+		x.cm.sharedRMW(x.cm.lockCell(p), "lock", func(o Value) (Value, bool) {
+			v := o.(*Term).C
+			if write && v == 0 {
+				got = true
+				return x.ts.BV(1000, 64), true
+			}
+			if !write && v < 1000 {
+				got = true
+				return x.ts.BV(v+1, 64), true
+			}
+			return nil, false
+		})
+		if !got && !try {
+			panic(pathEnd{kind: "cm-blocked", msg: "lock held"})
+		}
+		return got
+	}
 	l := x.lockOf(p)
 	g := x.cur
 	free := func() bool {
@@ -731,6 +812,19 @@ func (x *Exec) lock(p Ptr, write, try bool) bool {
 }
 
 func (x *Exec) unlock(p Ptr, write bool) {
+	if x.cm.active() {
+		x.cm.sharedRMW(x.cm.lockCell(p), "unlock", func(o Value) (Value, bool) {
+			v := o.(*Term).C
+			if write {
+				return x.ts.BV(0, 64), true
+			}
+			if v == 0 || v >= 1000 {
+				return x.ts.BV(0, 64), true
+			}
+			return x.ts.BV(v-1, 64), true
+		})
+		return
+	}
 	l := x.lockOf(p)
 	if write {
 		if l.writer == nil {
